@@ -36,3 +36,53 @@ def candidates(chk, lib, mods, srcdir, iface_prefixes):
             if isinstance(stored, tuple) and stored[1] and stored[1][0] == "addr":
                 out.setdefault(stored[1][1], (iface, sig))
     return out, ndisp
+
+
+_OWN = {}
+
+
+def ownership(chk, lib):
+    """{candidate function name: {interfaces whose dispatcher can bind it}} over all dispatchers of the library."""
+    if id(lib) in _OWN:
+        return _OWN[id(lib)]
+    own = {}
+    for key, name in lib.entry_list:
+        if not name.endswith("_dispatch_init"):
+            continue
+        iface = name[:-len("_dispatch_init")]
+        try:
+            for (facts, stored, addr) in c12.ladder_paths(lib, lib.func(key), None):
+                if isinstance(stored, tuple) and stored[1] and stored[1][0] == "addr":
+                    own.setdefault(stored[1][1], {}).setdefault(iface, addr)
+        except c12.Unmodelled as e:
+            chk.broke("%s: %s" % (name, e))
+    _OWN[id(lib)] = own
+    return own
+
+
+def binding_rule(chk, rule, lib, scope):
+    """Every implementation a dispatcher of this property's interfaces (name prefix in `scope`) can bind is
+    offered by that interface's dispatcher alone: a function written for one interface (key size, direction,
+    raw/expanded key, CPU family of a sibling manager) bound under another interface's name is a copy-paste slip
+    that only the affected CPU class ever executes."""
+    from report import Finding
+    own = ownership(chk, lib)
+    n = 0
+    for cand in sorted(own):
+        ifs = own[cand]
+        mine = [i for i in ifs if i.startswith(tuple(scope))]
+        if not mine:
+            continue
+        n += 1
+        ok = len(ifs) == 1
+        chk.obligation(rule, ok, key=("binding", cand), sample={"candidate": cand, "interface": sorted(ifs)[0]})
+        if not ok:
+            # the foreign binder is the interface whose name the candidate does not extend
+            ctok = [t for t in cand.split("_") if t]
+            home = sorted(i for i in ifs if all(t in ctok for t in i.split("_") if t))
+            foreign = sorted(i for i in ifs if i not in home) or sorted(ifs)[1:]
+            o = lib.by_name[lib._by_name[cand][0]] if cand in lib._by_name else None
+            chk.finding(Finding(rule, "%s_dispatch_init" % foreign[0], foreign[0] + "_dispatch_init", "binds:" + cand,
+                                "the dispatcher of %s can bind %s, which is also (and by its name properly) an implementation of %s: on the CPU class that selects this slot the interface runs code written for another interface" % (foreign[0], cand, ", ".join(home) or "another interface"),
+                                loc=(o.src if o else None)))
+    return n
